@@ -592,6 +592,12 @@ func callSSA(i *interpreter, caller *frame, callpos token.Pos, fn *ssa.Function,
 			return ext(fr, args)
 		}
 		if fn.Blocks == nil {
+			// assembly routine with a pure Go twin (Go convention: <name>Generic)
+			if fn.Pkg != nil {
+				if g := fn.Pkg.Func(fn.Name() + "Generic"); g != nil && g.Blocks != nil && types.Identical(g.Signature, fn.Signature) {
+					return callSSA(i, caller, callpos, g, args, env)
+				}
+			}
 			panic(unsupported{"no code for function: " + fn.String()})
 		}
 		if fn.Synthetic == "package initializer" {
@@ -678,6 +684,7 @@ func runFrame(fr *frame) {
 				}
 			}
 			ex.steps++
+			ex.curFr, ex.curInstr = fr, instr
 			if ex.steps > ex.maxSteps {
 				panic(engineAbort{"step budget exceeded"})
 			}
